@@ -46,6 +46,10 @@ def systematic():
     out.append({"steps": pre + [{"op": "sync", "k": 0}, {"op": "save", "user": "carol"}, {"op": "save", "user": "alice"}, {"op": "outage"},
                                 {"op": "mutate_offline", "user": "carol"}, {"op": "mutate_offline", "user": "alice"}, {"op": "recover"},
                                 {"op": "sync", "k": 0}], "origin": "outage-with-unsynced-changes"})
+    # ... and at every storage operation of a profile save
+    for pk in range(1, 7):
+        out.append({"steps": pre + [{"op": "save_fault", "user": "alice", "pk": pk}, {"op": "save", "user": "alice"},
+                                    {"op": "save_fault", "user": "carol", "pk": pk}, {"op": "sync", "k": 0}], "origin": "save-fault-at-%d" % pk})
     out.append({"steps": pre + [{"op": "expire", "user": "bob"}, {"op": "sync", "k": 0}, {"op": "cleanup"}, {"op": "sync", "k": 0}],
                 "origin": "expiry"})
     return out
